@@ -79,6 +79,7 @@ class Unit:
         self.substs = []   # (scope, is_regex, frm, to)
         self.forloops = []  # (scope, expr literal, replacement iterator expr)   rule R7
         self.absent = []    # (scope, literal) that must not survive the rewrites (a substitution pattern was lost)
+        self.inline_closures = []  # (scope, [closure names]) rule R19
         self.files = {}
         self.items_cache = {}
         self.verus_args = []
@@ -146,6 +147,20 @@ class Unit:
             t, n = rx.r9_closure_wildcard(text)
             text = t
             out.count('R9', n)
+        # R19: local closures capturing `&mut` (outside Verus) are beta-reduced at their call sites; runs before R2 would hide arguments
+        for sc, names in self.inline_closures:
+            if sc != '*' and sc != scope:
+                continue
+            try:
+                t19, n19 = rx.r19_inline_closures(text, names)
+            except rx.LexError as e:
+                raise Undecided('cannot lex %s for R19: %s' % (scope, e))
+            if t19 is None:
+                raise Undecided('unsupported construct: a local closure of %s cannot be beta-reduced mechanically (R19 side conditions)' % scope)
+            if names and not n19:
+                raise Undecided('lost anchor: closures %s of %s are no longer defined / called' % (' '.join(names), scope))
+            text = t19
+            out.count('R19', n19)
         for sc, frm, to in self.forloops:
             if sc != '*' and sc != scope:
                 continue
@@ -301,6 +316,10 @@ class Unit:
             elif d == 'require-absent':
                 sc, lit = [x.strip() for x in arg.split(':::')]
                 self.absent.append((sc, lit))
+            elif d == 'inline-closures':
+                # R19: //@inline-closures <scope> [::: name name ..]  (no names: every local closure with a block body that is only called)
+                segs = [x.strip() for x in arg.split(':::')]
+                self.inline_closures.append((segs[0], segs[1].split() if len(segs) > 1 and segs[1] else None))
             elif d in ('subst', 'resubst'):
                 sc, frm, to = [x.strip() for x in arg.split(':::')]
                 frm = frm.replace('\\n', '\n') if d == 'subst' else frm
